@@ -383,19 +383,29 @@ where
         }
         // ------------------------------------------------------------------------------ mislabelled bound
         1 => {
-            let could_untrim = c.variant % 3 == 0 && !info.any_bound && !enforced.is_empty() && (0..=sup).any(|b| !enforced.contains(&b));
+            let could_untrim = c.variant % 3 == 0 && !enforced.is_empty();
             if enforced.len() < 2 && !could_untrim {
                 ctx.label("fewer_than_two_bounds");
                 return Ok(());
             }
-            let d1 = enforced[pick(c.d_choice, enforced.len())];
+            let mut d1 = enforced[pick(c.d_choice, enforced.len())];
+            // one case in three: presented under a bound the key was *not* trimmed for - any value in
+            // 0..=supported outside the enforced set, or a bound beyond the supported degree (just beyond,
+            // well beyond, the largest integer); the verifier must refuse it, not round or clamp it
+            let mut untrimmed: Vec<usize> = if info.any_bound { vec![] } else { (0..=sup).filter(|b| !enforced.contains(b)).collect() };
+            let inside = untrimmed.len();
+            untrimmed.extend([sup + 1, sup + 2, sup + 9, 2 * sup + 1, usize::MAX]);
+            let use_untrimmed = c.variant % 3 == 0;
+            let at = if use_untrimmed && (inside == 0 || c.d2_choice % 2 == 1) { inside + pick(c.d2_choice / 2, 5) } else { pick(c.d2_choice, inside.max(1)) };
+            if use_untrimmed && at >= inside && c.deg_choice % 2 == 0 {
+                // made under the largest enforced bound (for IPA the supported degree itself, where the
+                // shift is trivial)
+                d1 = *enforced.iter().max().unwrap();
+            }
             let others: Vec<usize> = enforced.iter().cloned().filter(|b| *b != d1).collect();
-            // one case in three: presented under a bound the key was *not* trimmed for (any value in
-            // 0..=supported outside the enforced set; the verifier must refuse it, not round it)
-            let untrimmed: Vec<usize> = (0..=sup).filter(|b| !enforced.contains(b)).collect();
-            let use_untrimmed = c.variant % 3 == 0 && !untrimmed.is_empty() && !info.any_bound;
-            let d = if use_untrimmed { untrimmed[pick(c.d2_choice, untrimmed.len())] } else { others[pick(c.d2_choice, others.len())] };
+            let d = if use_untrimmed { untrimmed[at] } else { others[pick(c.d2_choice, others.len())] };
             ctx.label_if(use_untrimmed, "presented_bound_not_enforced");
+            ctx.label_if(use_untrimmed && d > sup, "presented_bound_beyond_supported");
             // degree: within both bounds, or (untrimmed case) anywhere up to the committed bound
             let cap = if use_untrimmed { d1 } else { d1.min(d) };
             let deg = pick(c.deg_choice, cap + 1);
@@ -621,7 +631,7 @@ pub fn spec() -> PropertySpec {
     add!(Ipa);
     PropertySpec {
         id: "C04",
-        rule: "(Every verification of a case goes through check (half of the cases), batch_check on a one-label query set, or check_combinations on the single-term combination [1*p] (a quarter each).) (iv) key requests whose enforced-bound list contains a bound in (supported, max] or beyond max (Marlin, Sonic): if trim serves such a key (MarlinKZG10 does for bounds <= max, by design), commit of a polynomial whose degree exceeds the supported degree must still fail. Mislabel group: one case in three presents the commitment under a bound outside the enforced set. Three groups per scheme (Marlin, Sonic, IPA) over generated keys (max degree, supported degree, enforced set B, unsorted/duplicated): (i) admission grid - declared bound d drawn from B / from 1..=supported outside B / beyond supported, degree in {d-1,d,d+1}: commit (and open with a relabelled polynomial) must return Err or abort exactly when deg > d or d not in B or deg > supported, and an admissible boundary case must commit, open and verify; (ii) mislabel - commit under d' in B, present as d in B, d != d', deg <= min(d,d'), with the honest proof and with the library prover run on the relabelled polynomial and the old state: not accepted; (iii) the degree-bound part dropped (with and without the label), taken from another polynomial, or replaced by the plain commitment: not accepted. Points for (ii),(iii) are admissible by construction (Marlin, Sonic: p(z) != 0; IPA: also z != 0 and z^(d-d') != 1); polynomials in (iii) are non-constant. Non-trivial: d != max(B) or hiding present, and for (i) |deg - d| <= 1.",
+        rule: "(Every verification of a case goes through check (half of the cases), batch_check on a one-label query set, or check_combinations on the single-term combination [1*p] (a quarter each).) (iv) key requests whose enforced-bound list contains a bound in (supported, max] or beyond max (Marlin, Sonic): if trim serves such a key (MarlinKZG10 does for bounds <= max, by design), commit of a polynomial whose degree exceeds the supported degree must still fail. Mislabel group: one case in three presents the commitment under a bound outside the enforced set - inside 0..=supported, or beyond the supported degree (+1, +2, +9, 2*supported+1, usize::MAX; all three schemes, half of them with the commitment made under the largest enforced bound). Three groups per scheme (Marlin, Sonic, IPA) over generated keys (max degree, supported degree, enforced set B, unsorted/duplicated): (i) admission grid - declared bound d drawn from B / from 1..=supported outside B / beyond supported, degree in {d-1,d,d+1}: commit (and open with a relabelled polynomial) must return Err or abort exactly when deg > d or d not in B or deg > supported, and an admissible boundary case must commit, open and verify; (ii) mislabel - commit under d' in B, present as d in B, d != d', deg <= min(d,d'), with the honest proof and with the library prover run on the relabelled polynomial and the old state: not accepted; (iii) the degree-bound part dropped (with and without the label), taken from another polynomial, or replaced by the plain commitment: not accepted. Points for (ii),(iii) are admissible by construction (Marlin, Sonic: p(z) != 0; IPA: also z != 0 and z^(d-d') != 1); polynomials in (iii) are non-constant. Non-trivial: d != max(B) or hiding present, and for (i) |deg - d| <= 1.",
         assumptions: vec![
             "enforced sets stay inside the documented trim domain 1..=supported_degree",
             "degree-bound enforcement of Marlin and IPA is a polynomial identity at the query point: roots of p and points with z^(d-d')=1 are excluded as the modules document",
